@@ -79,6 +79,11 @@ pub(crate) fn solve_bindings(
         module_var_types,
     };
     const ITERATIONS: usize = 100;
+    // A binding defined in terms of itself through a union (`x.extend([(x,)])`) gets a type whose
+    // size doubles with every iteration; comparing such types takes exponential time, so a type
+    // whose rendering outgrows this many bytes is given up on and becomes `Any`.
+    const MAX_TYPE_SIZE: usize = 20000;
+    let mut widened = false;
     for _iteration in 0..ITERATIONS {
         changed = false;
         ctx.errors.borrow_mut().clear();
@@ -89,13 +94,24 @@ pub(crate) fn solve_bindings(
                 let new = Ty::union2(t.clone(), ty);
                 if &new != t {
                     changed = true;
-                    *t = new;
+                    if new.rendered_longer_than(MAX_TYPE_SIZE) {
+                        widened = true;
+                        *t = Ty::any();
+                    } else {
+                        *t = new;
+                    }
                 }
             }
         }
         if !changed {
             break;
         }
+    }
+    if widened {
+        ctx.approximoations.borrow_mut().push(Approximation::new(
+            "Inferred type too large, replaced with `Any`; size limit",
+            MAX_TYPE_SIZE,
+        ));
     }
     if changed {
         ctx.approximoations.borrow_mut().push(Approximation::new(
